@@ -11,7 +11,7 @@ import ast
 from typing import Any, Dict, List, Optional, Tuple
 
 from ..loader import Project, ClassInfo, FuncInfo, Module
-from .abseval import Evaluator, Obj, Unsupported, AbsRaise, Sym
+from .abseval import Evaluator, Obj, Unsupported, AbsRaise, Sym, LoopBound
 
 BUILTIN_TYPES = {"int": int, "str": str, "float": float, "list": list, "dict": dict, "set": set, "tuple": tuple,
                  "bool": bool, "frozenset": frozenset}
@@ -247,7 +247,7 @@ class Runtime:
             if parent is not None:
                 parent.steps += ev.steps
                 if parent.steps > parent.max_steps:
-                    raise Unsupported("evaluation step bound exceeded")
+                    raise LoopBound("evaluation step bound exceeded")
             return ret
         finally:
             self.depth -= 1
